@@ -525,6 +525,11 @@ fn run(ctx: &mut Ctx) -> Verdict {
                 match results.get(&k) {
                     Some(v) => {
                         for j in 0..n {
+                            // (the owner of the mutated reply gets whatever the mutation made of its payload -
+                            // a flipped bit can turn its tag into somebody else's)
+                            if target == Target::Reply && !forged && k == x {
+                                break;
+                            }
                             if j != k && v.starts_with("Ok(") && v.contains(&format!("TAG-{j}-OK")) {
                                 return Verdict::violation("wrong-reply", format!("{what}: request #{k} resolved to the reply of #{j}: {v}"));
                             }
